@@ -27,7 +27,7 @@ CVC5 = "/usr/bin/cvc5"
 
 
 # ---- witnesses -----------------------------------------------------------------------------------------------------
-def conc(model, v, cap=4096, depth=0):
+def conc(model, v, cap=600, depth=0):
     """concrete python value of a (symbolic) value under a model"""
     if isinstance(v, SInt):
         r = model.eval(v.t, model_completion=True)
@@ -94,10 +94,10 @@ def model_text(model, limit=60):
 
 
 # ---- running one unit ---------------------------------------------------------------------------------------------------
-def _vc_dict(vc, ex_by_vc, props):
+def _vc_dict(vc, ex_by_vc, props, want_witness=True):
     d = {"name": vc.name, "verdict": vc.verdict, "backend": vc.backend, "time": round(vc.time, 4),
          "detail": vc.detail, "props": sorted(props)}
-    if vc.model is not None:
+    if vc.model is not None and want_witness:
         ex = ex_by_vc
         try:
             d["witness"] = witness_of(ex, vc.model)
@@ -146,6 +146,7 @@ def run_explore(unit, body, reg, default_props, timeout_ms, setup=None, max_path
         res["wall"] = time.time() - t0
         return res
     outc = Counter()
+    nref = {}
     inl, used = set(), set()
     for r in results:
         if r.outcome == "infeasible":
@@ -155,7 +156,9 @@ def run_explore(unit, body, reg, default_props, timeout_ms, setup=None, max_path
         if r.outcome == "unsupported":
             res["unsupported"].append({"reason": r.error, "path": r.tags})
         for vc in r.vcs:
-            d = _vc_dict(vc, r.ex, props_of(vc.name, default_props))
+            if vc.verdict == "refuted":
+                nref[vc.name] = nref.get(vc.name, 0) + 1
+            d = _vc_dict(vc, r.ex, props_of(vc.name, default_props), nref.get(vc.name, 0) <= 2)
             d["path"] = [f"{t}={c}" for t, c in zip(r.tags, r.trace)][-12:]
             if vc.verdict == "unknown" and vc.smt2:
                 ans = cvc5_check(vc.smt2, timeout_ms / 1000.0)
